@@ -251,7 +251,14 @@ class BuildAssembly(Assembly):
                         # scaffold
                         prev_row = scffld.rows[i - 1]
                         if isinstance(prev_row, Gap):
-                            new_scffld.add_row(prev_row)
+                            # Keep all of a run of Gaps before the fragment
+                            j = i - 1
+                            while j - 1 > last_added_i and isinstance(
+                                scffld.rows[j - 1], Gap
+                            ):
+                                j -= 1
+                            for gap_row in scffld.rows[j:i]:
+                                new_scffld.add_row(gap_row)
                         else:
                             new_scffld.add_row(self.default_gap)
                     new_scffld.add_row(frag)
